@@ -1481,3 +1481,497 @@ Proof.
   - intros k r H. destruct k; simpl in H; contradiction.
   - intros k1 k2 r1 r2 H. destruct k1; simpl in H; contradiction.
 Qed.
+
+(* ================================================================== properties of the reference semantics *)
+Definition stable (R R' : reg) : Prop :=
+  g_log R' = g_log R /\ g_neg R' = g_neg R /\ g_clock R' = g_clock R /\ g_conn R' = g_conn R.
+
+Lemma stable_refl : forall R, stable R R.
+Proof. intro. repeat split. Qed.
+
+Lemma stable_trans : forall A B C, stable A B -> stable B C -> stable A C.
+Proof. unfold stable. intros A B C (a1&a2&a3&a4) (b1&b2&b3&b4). repeat split; congruence. Qed.
+
+Lemma stable_rset : forall k l R, stable R (rset k l R).
+Proof. intros. destruct (g_fields_rset k l R) as (a&b&c&d&e). repeat split; auto. Qed.
+
+Lemma stable_action : forall a R, stable R (r_action a R).
+Proof.
+  intros a R. destruct a; cbn [r_action]; try (unfold r_add; destruct (has_key cb ud _); [apply stable_refl|];
+    eapply stable_trans; [|apply stable_rset]; repeat split).
+  - unfold r_del. apply stable_rset.
+  - destruct (g_conn R); repeat split.
+Qed.
+
+Lemma stable_actions : forall acts R, stable R (r_actions acts R).
+Proof.
+  induction acts as [|a acts IH]; intro R; cbn [r_actions]; [apply stable_refl|].
+  eapply stable_trans; [apply stable_action | apply IH].
+Qed.
+
+(* every event of the log after a pass was there before, or is the call of a registration of the snapshot
+   that, at its turn, was still registered, passed the gate and matched *)
+Lemma spec_loop_log_inv : forall sc k sz (P : event -> Prop) neg0 clock0 snap0,
+  (forall x Rm r ret, In x snap0 -> find_rec x (rget k Rm) = Some r -> s_gate k Rm r = true ->
+      s_match k r sz clock0 = true -> g_neg Rm = neg0 -> g_clock Rm = clock0 ->
+      P (EvCall x (r_cb r) (r_ud r) (r_user r) k clock0 ret)) ->
+  forall snap R, incl snap snap0 -> g_neg R = neg0 -> g_clock R = clock0 ->
+  (forall e, In e (g_log R) -> P e) ->
+  forall e, In e (g_log (spec_loop sc k sz snap R)) -> P e.
+Proof.
+  intros sc k sz P neg0 clock0 snap0 HP. induction snap as [|x snap IH]; intros R HI HN HC HL; cbn [spec_loop]; auto.
+  assert (HI' : incl snap snap0) by (intros y Hy; apply HI; right; auto).
+  destruct (find_rec x (rget k R)) as [r|] eqn:F; [|apply IH; auto].
+  destruct (s_gate k R r && s_match k r sz (g_clock R)) eqn:GM; [|apply IH; auto].
+  apply andb_true_iff in GM. destruct GM as [G M].
+  destruct (sc _ (r_cb r) (r_ud r)) as [acts ret].
+  set (R1 := r_update k x (rec_stamp k (g_clock R)) R).
+  assert (S1 : stable R R1) by (unfold R1, r_update; apply stable_rset).
+  destruct S1 as (s1&s2&s3&s4).
+  set (R2 := rset_log R1 (EvCall x (r_cb r) (r_ud r) (r_user r) k (g_clock R1) ret :: g_log R1)).
+  pose proof (stable_actions acts R2) as (t1&t2&t3&t4).
+  assert (L3 : forall e, In e (g_log (r_actions acts R2)) -> P e).
+  { intros e He. rewrite t1 in He. unfold R2 in He. simpl in He. destruct He as [<-|He].
+    - rewrite s3, HC. apply (HP x R r ret); auto.
+      + apply HI. left. reflexivity.
+      + rewrite <- HC. exact M.
+    - rewrite s1 in He. auto. }
+  destruct ret.
+  - apply IH; auto.
+    + rewrite t2. unfold R2. simpl. congruence.
+    + rewrite t3. unfold R2. simpl. congruence.
+  - pose proof (stable_rset k (filter (fun r0 => negb (Nat.eqb (hid r0) x)) (rget k (r_actions acts R2))) (r_actions acts R2)) as (u1&u2&u3&u4).
+    apply IH; unfold r_remove; auto.
+    + rewrite u2, t2. unfold R2. simpl. congruence.
+    + rewrite u3, t3. unfold R2. simpl. congruence.
+    + intros e He. rewrite u1 in He. auto.
+Qed.
+
+Lemma stable_spec_loop : forall sc k sz snap R,
+  g_neg (spec_loop sc k sz snap R) = g_neg R /\ g_clock (spec_loop sc k sz snap R) = g_clock R /\
+  g_conn (spec_loop sc k sz snap R) = g_conn R.
+Proof.
+  induction snap as [|x snap IH]; intro R; cbn [spec_loop]; auto.
+  destruct (find_rec x (rget k R)) as [r|]; auto.
+  destruct (s_gate k R r && s_match k r sz (g_clock R)); auto.
+  destruct (sc _ (r_cb r) (r_ud r)) as [acts ret].
+  match goal with |- context [spec_loop sc k sz snap ?X] => destruct (IH X) as (i1&i2&i3); rewrite i1, i2, i3;
+    assert (SX : g_neg X = g_neg R /\ g_clock X = g_clock R /\ g_conn X = g_conn R); [|exact SX] end.
+  set (R1 := r_update k x (rec_stamp k (g_clock R)) R).
+  pose proof (stable_rset k (map (fun r0 => if Nat.eqb (hid r0) x then rec_stamp k (g_clock R) r0 else r0) (rget k R)) R) as (s1&s2&s3&s4).
+  fold (r_update k x (rec_stamp k (g_clock R)) R) in s1, s2, s3, s4. fold R1 in s1, s2, s3, s4.
+  set (R2 := rset_log R1 (EvCall x (r_cb r) (r_ud r) (r_user r) k (g_clock R1) ret :: g_log R1)).
+  pose proof (stable_actions acts R2) as (t1&t2&t3&t4).
+  destruct ret.
+  - rewrite t2, t3, t4. unfold R2. simpl. auto.
+  - unfold r_remove.
+    pose proof (stable_rset k (filter (fun r0 => negb (Nat.eqb (hid r0) x)) (rget k (r_actions acts R2))) (r_actions acts R2)) as (u1&u2&u3&u4).
+    rewrite u2, u3, u4, t2, t3, t4. unfold R2. simpl. auto.
+Qed.
+
+(* how one action changes one list *)
+Lemma action_list_cases : forall a R k,
+  rget k (r_action a R) = rget k R \/
+  (exists rn, hid rn = g_next R /\ r_enabled rn = false /\
+              (rget k (r_action a R) = rn :: rget k R \/ rget k (r_action a R) = rget k R ++ [rn])) \/
+  (exists p, rget k (r_action a R) = filter p (rget k R)).
+Proof.
+  intros a R k.
+  assert (ADD : forall at_head ka cb ud user flt,
+    rget k (r_add at_head ka cb ud user flt R) = rget k R \/
+    (exists rn, hid rn = g_next R /\ r_enabled rn = false /\
+       (rget k (r_add at_head ka cb ud user flt R) = rn :: rget k R \/
+        rget k (r_add at_head ka cb ud user flt R) = rget k R ++ [rn]))).
+  { intros. unfold r_add. destruct (has_key cb ud (rget ka R)); auto.
+    destruct (kind_eq_dec k ka) as [->|N].
+    - right. exists (mkRec (g_next R) cb ud user false flt). rewrite rget_rset_same. destruct at_head; auto.
+    - left. rewrite rget_rset_other, rget_rset_next; auto. }
+  destruct a; cbn [r_action]; try (destruct (ADD false KStanza cb ud user (FStanza ns name type)); tauto);
+    try (destruct (ADD false (KId id) cb ud user (FId id)); tauto);
+    try (destruct (ADD true KTimed cb ud user (FTimed period (g_clock R))); tauto);
+    try (destruct (ADD true KGlobal cb ud true (FTimed period (g_clock R))); tauto).
+  - unfold r_del. destruct (kind_eq_dec k k0) as [->|N].
+    + right. right. eexists. rewrite rget_rset_same. reflexivity.
+    + left. apply rget_rset_other. auto.
+  - left. destruct (g_conn R); auto; destruct k; reflexivity.
+Qed.
+
+Lemma present_cons : forall r l x, present (r :: l) x = Nat.eqb (hid r) x || present l x.
+Proof. reflexivity. Qed.
+
+(* a registration that is gone stays gone: numbers are never reused *)
+Lemma absent_action : forall a R k x, (x < g_next R)%nat ->
+  present (rget k R) x = false -> present (rget k (r_action a R)) x = false.
+Proof.
+  intros a R k x Hx P. destruct (action_list_cases a R k) as [E | [[rn [Hh [_ [E|E]]]] | [p E]]]; rewrite E; auto.
+  - rewrite present_cons, P. replace (Nat.eqb (hid rn) x) with false; auto. symmetry. apply Nat.eqb_neq. lia.
+  - rewrite present_app, P. unfold present. simpl. replace (Nat.eqb (hid rn) x) with false; auto. symmetry. apply Nat.eqb_neq. lia.
+  - apply present_filter_false. auto.
+Qed.
+
+Lemma absent_actions : forall acts R k x, (x < g_next R)%nat ->
+  present (rget k R) x = false -> present (rget k (r_actions acts R)) x = false.
+Proof.
+  induction acts as [|a acts IH]; intros R k x Hx P; cbn [r_actions]; auto.
+  apply IH.
+  - pose proof (g_next_action a R). lia.
+  - apply absent_action; auto.
+Qed.
+
+Lemma present_map_same : forall (f : hrec -> hrec) l x, (forall r, hid (f r) = hid r) -> present (map f l) x = present l x.
+Proof. intros. apply present_hids. apply hids_map_same. auto. Qed.
+
+Lemma rget_update_cases : forall k k' x f R, (forall r, hid (f r) = hid r) ->
+  forall y, present (rget k' (r_update k x f R)) y = present (rget k' R) y.
+Proof.
+  intros k k' x f R Hf y. unfold r_update. destruct (kind_eq_dec k' k) as [->|N].
+  - rewrite rget_rset_same. apply present_map_same. intro r. destruct (Nat.eqb (hid r) x); auto.
+  - rewrite rget_rset_other; auto.
+Qed.
+
+Lemma absent_spec_loop : forall sc k sz k' x snap R, (x < g_next R)%nat ->
+  present (rget k' R) x = false -> present (rget k' (spec_loop sc k sz snap R)) x = false.
+Proof.
+  intros sc k sz k' x. induction snap as [|y snap IH]; intros R Hx P; cbn [spec_loop]; auto.
+  destruct (find_rec y (rget k R)) as [r|]; auto.
+  destruct (s_gate k R r && s_match k r sz (g_clock R)); auto.
+  destruct (sc _ (r_cb r) (r_ud r)) as [acts ret].
+  set (R1 := r_update k y (rec_stamp k (g_clock R)) R).
+  set (R2 := rset_log R1 (EvCall y (r_cb r) (r_ud r) (r_user r) k (g_clock R1) ret :: g_log R1)).
+  assert (P2 : present (rget k' R2) x = false).
+  { replace (rget k' R2) with (rget k' R1) by (destruct k'; reflexivity).
+    unfold R1. rewrite rget_update_cases; auto. intro. apply hid_rec_stamp. }
+  assert (G2 : g_next R2 = g_next R) by (unfold R2, R1, r_update; simpl; apply g_next_rset).
+  assert (P3 : present (rget k' (r_actions acts R2)) x = false) by (apply absent_actions; auto; lia).
+  assert (G3 : (x < g_next (r_actions acts R2))%nat) by (pose proof (g_next_actions acts R2); lia).
+  destruct ret.
+  - apply IH; auto.
+  - apply IH.
+    + unfold r_remove. rewrite g_next_rset. auto.
+    + unfold r_remove. destruct (kind_eq_dec k' k) as [->|N].
+      * rewrite rget_rset_same. apply present_filter_false. auto.
+      * rewrite rget_rset_other; auto.
+Qed.
+
+(* the log only grows *)
+Lemma log_mono_spec_loop : forall sc k sz snap R e, In e (g_log R) -> In e (g_log (spec_loop sc k sz snap R)).
+Proof.
+  intros sc k sz. induction snap as [|y snap IH]; intros R e He; cbn [spec_loop]; auto.
+  destruct (find_rec y (rget k R)) as [r|]; auto.
+  destruct (s_gate k R r && s_match k r sz (g_clock R)); auto.
+  destruct (sc _ (r_cb r) (r_ud r)) as [acts ret].
+  set (R1 := r_update k y (rec_stamp k (g_clock R)) R).
+  set (R2 := rset_log R1 (EvCall y (r_cb r) (r_ud r) (r_user r) k (g_clock R1) ret :: g_log R1)).
+  assert (H2 : In e (g_log (r_actions acts R2))).
+  { destruct (stable_actions acts R2) as (t1&_). rewrite t1. unfold R2. simpl. right.
+    unfold R1, r_update. destruct (g_fields_rset k (map (fun r0 => if Nat.eqb (hid r0) y then rec_stamp k (g_clock R) r0 else r0) (rget k R)) R) as (a&_).
+    rewrite a. exact He. }
+  destruct ret; apply IH; auto.
+  unfold r_remove. destruct (g_fields_rset k (filter (fun r0 => negb (Nat.eqb (hid r0) y)) (rget k (r_actions acts R2))) (r_actions acts R2)) as (a&_).
+  rewrite a. exact H2.
+Qed.
+
+(* ------------------------------------------------------------------ order of the invocations *)
+Inductive subseq {A : Type} : list A -> list A -> Prop :=
+| ss_nil : forall l, subseq [] l
+| ss_skip : forall a l1 l2, subseq l1 l2 -> subseq l1 (a :: l2)
+| ss_take : forall a l1 l2, subseq l1 l2 -> subseq (a :: l1) (a :: l2).
+
+Lemma subseq_in : forall A (l1 l2 : list A) x, subseq l1 l2 -> In x l1 -> In x l2.
+Proof. induction 1; simpl; intros; try contradiction; intuition. Qed.
+
+Lemma subseq_nodup : forall A (l1 l2 : list A), subseq l1 l2 -> NoDup l2 -> NoDup l1.
+Proof.
+  induction 1; intro ND.
+  - constructor.
+  - inversion ND; auto.
+  - inversion ND; subst. constructor; auto. intro X. apply H2. eapply subseq_in; eauto.
+Qed.
+
+Lemma calls_of_app : forall l1 l2, calls_of (l1 ++ l2) = calls_of l1 ++ calls_of l2.
+Proof. intros. unfold calls_of. apply flat_map_app. Qed.
+
+Definition is_call_at (k : kind) (t : Z) (e : event) : Prop :=
+  exists x cb ud u ret, e = EvCall x cb ud u k t ret.
+
+(* the pass appends to the log the calls of a subsequence of the snapshot, in snapshot order *)
+Lemma spec_loop_trace : forall sc k sz snap R,
+  exists evs, g_log (spec_loop sc k sz snap R) = evs ++ g_log R /\
+              subseq (calls_of (rev evs)) snap /\ Forall (is_call_at k (g_clock R)) evs.
+Proof.
+  intros sc k sz. induction snap as [|y snap IH]; intro R; cbn [spec_loop].
+  { exists []. repeat split; constructor. }
+  assert (SKIP : exists evs, g_log (spec_loop sc k sz snap R) = evs ++ g_log R /\
+              subseq (calls_of (rev evs)) (y :: snap) /\ Forall (is_call_at k (g_clock R)) evs).
+  { destruct (IH R) as [evs [E [S F]]]. exists evs. repeat split; auto. constructor. auto. }
+  destruct (find_rec y (rget k R)) as [r|]; auto.
+  destruct (s_gate k R r && s_match k r sz (g_clock R)); auto.
+  destruct (sc _ (r_cb r) (r_ud r)) as [acts ret].
+  set (R1 := r_update k y (rec_stamp k (g_clock R)) R).
+  set (ev := EvCall y (r_cb r) (r_ud r) (r_user r) k (g_clock R1) ret).
+  set (R2 := rset_log R1 (ev :: g_log R1)).
+  assert (S1 : stable R R1) by (unfold R1, r_update; apply stable_rset). destruct S1 as (s1&s2&s3&s4).
+  pose proof (stable_actions acts R2) as (t1&t2&t3&t4).
+  set (R4 := if ret then r_actions acts R2 else r_remove k y (r_actions acts R2)).
+  assert (L4 : g_log R4 = ev :: g_log R /\ g_clock R4 = g_clock R).
+  { unfold R4. destruct ret.
+    - rewrite t1, t3. unfold R2. simpl. rewrite s1, s3. auto.
+    - unfold r_remove.
+      destruct (g_fields_rset k (filter (fun r0 => negb (Nat.eqb (hid r0) y)) (rget k (r_actions acts R2))) (r_actions acts R2)) as (a&b&_).
+      rewrite a, b, t1, t3. unfold R2. simpl. rewrite s1, s3. auto. }
+  destruct L4 as [L4 C4].
+  destruct (IH R4) as [evs [E [S F]]]. fold R4.
+  exists (evs ++ [ev]). repeat split.
+  - rewrite E, L4, <- app_assoc. reflexivity.
+  - rewrite rev_app_distr. simpl. apply ss_take. exact S.
+  - apply Forall_app. split.
+    + rewrite C4 in F. exact F.
+    + constructor; [|constructor]. unfold ev. rewrite s3. red. eauto 10.
+Qed.
+
+(* ------------------------------------------------------------------ a due handler is served *)
+Lemma find_rec_some_in : forall x l r, find_rec x l = Some r -> In r l /\ hid r = x.
+Proof. intros x l r H. apply find_some in H. destruct H as [H E]. apply Nat.eqb_eq in E. auto. Qed.
+
+Lemma find_rec_unique : forall l r, NoDup (hids l) -> In r l -> find_rec (hid r) l = Some r.
+Proof.
+  intros l r ND Hr. apply in_split in Hr. destruct Hr as [pre [suf ->]]. apply find_rec_mid. auto.
+Qed.
+
+Lemma present_find : forall l x, present l x = true -> exists r, find_rec x l = Some r.
+Proof.
+  unfold present, find_rec. induction l as [|q l IH]; simpl; intros x H; [discriminate|].
+  destruct (Nat.eqb (hid q) x); eauto.
+Qed.
+
+Lemma find_present : forall l x r, find_rec x l = Some r -> present l x = true.
+Proof. intros. apply find_rec_some_in in H. destruct H as [H <-]. apply present_in. apply in_hids. auto. Qed.
+
+Lemma find_back_action : forall a R k x r', WF R -> (x < g_next R)%nat ->
+  find_rec x (rget k (r_action a R)) = Some r' -> find_rec x (rget k R) = Some r'.
+Proof.
+  intros a R k x r' W Hx F.
+  destruct (action_list_cases a R k) as [E | [[rn [Hh [_ [E|E]]]] | [p E]]]; rewrite E in F; auto.
+  - unfold find_rec in *. simpl in F. replace (Nat.eqb (hid rn) x) with false in F; auto. symmetry. apply Nat.eqb_neq. lia.
+  - apply find_rec_some_in in F. destruct F as [F <-]. apply in_app_or in F. destruct F as [F|[<-|[]]].
+    + apply find_rec_unique; auto. apply (wf_nodup _ W).
+    + exfalso. lia.
+  - apply find_rec_some_in in F. destruct F as [F <-]. apply filter_In in F. destruct F as [F _].
+    apply find_rec_unique; auto. apply (wf_nodup _ W).
+Qed.
+
+Lemma find_back_actions : forall acts R k x r', WF R -> (x < g_next R)%nat ->
+  find_rec x (rget k (r_actions acts R)) = Some r' -> find_rec x (rget k R) = Some r'.
+Proof.
+  induction acts as [|a acts IH]; intros R k x r' W Hx F; cbn [r_actions] in F; auto.
+  apply (find_back_action a); auto. apply IH; auto.
+  - apply wf_action; auto.
+  - pose proof (g_next_action a R). lia.
+Qed.
+
+Lemma find_map_other : forall (f : hrec -> hrec) y l x, (forall r, hid (f r) = hid r) -> x <> y ->
+  find_rec x (map (fun q => if Nat.eqb (hid q) y then f q else q) l) = find_rec x l.
+Proof.
+  intros f y l x Hf N. unfold find_rec. induction l as [|q l IH]; simpl; auto.
+  destruct (Nat.eqb (hid q) y) eqn:E.
+  - apply Nat.eqb_eq in E. rewrite Hf.
+    replace (Nat.eqb (hid q) x) with false by (symmetry; apply Nat.eqb_neq; congruence). exact IH.
+  - destruct (Nat.eqb (hid q) x); auto.
+Qed.
+
+Lemma s_gate_neg : forall k R R' r, g_neg R' = g_neg R -> s_gate k R' r = s_gate k R r.
+Proof. intros. unfold s_gate. rewrite H. reflexivity. Qed.
+
+(* a registration of the snapshot that is registered, passes the gate and matches when the pass starts
+   is called in this pass, unless an earlier handler of the pass deleted it *)
+Lemma spec_loop_complete : forall sc k sz snap R x r,
+  WF R -> NoDup snap -> below (g_next R) snap -> In x snap ->
+  find_rec x (rget k R) = Some r -> s_gate k R r = true -> s_match k r sz (g_clock R) = true ->
+  (exists ret, In (EvCall x (r_cb r) (r_ud r) (r_user r) k (g_clock R) ret) (g_log (spec_loop sc k sz snap R))) \/
+  present (rget k (spec_loop sc k sz snap R)) x = false.
+Proof.
+  intros sc k sz. induction snap as [|y snap IH]; intros R x r W ND B Hx F G M; [contradiction|].
+  assert (ND' : NoDup snap) by (inversion ND; auto).
+  assert (B' : below (g_next R) snap) by (intros h Hh; apply B; right; auto).
+  destruct (Nat.eq_dec y x) as [->|N].
+  - (* its turn *)
+    cbn [spec_loop]. rewrite F, G, M. cbn [andb].
+    destruct (sc _ (r_cb r) (r_ud r)) as [acts ret]. left. exists ret.
+    apply log_mono_spec_loop.
+    set (R1 := r_update k x (rec_stamp k (g_clock R)) R).
+    assert (S1 : stable R R1) by (unfold R1, r_update; apply stable_rset). destruct S1 as (s1&s2&s3&s4).
+    set (R2 := rset_log R1 (EvCall x (r_cb r) (r_ud r) (r_user r) k (g_clock R1) ret :: g_log R1)).
+    pose proof (stable_actions acts R2) as (t1&_).
+    assert (H3 : In (EvCall x (r_cb r) (r_ud r) (r_user r) k (g_clock R) ret) (g_log (r_actions acts R2))).
+    { rewrite t1. unfold R2. simpl. left. rewrite s3. reflexivity. }
+    destruct ret; auto.
+    unfold r_remove.
+    destruct (g_fields_rset k (filter (fun r0 => negb (Nat.eqb (hid r0) x)) (rget k (r_actions acts R2))) (r_actions acts R2)) as (a&_).
+    rewrite a. exact H3.
+  - assert (Hx' : In x snap) by (destruct Hx; [contradiction | auto]).
+    cbn [spec_loop].
+    destruct (find_rec y (rget k R)) as [ry|] eqn:Fy; [|apply IH; auto].
+    destruct (s_gate k R ry && s_match k ry sz (g_clock R)); [|apply IH; auto].
+    destruct (sc _ (r_cb ry) (r_ud ry)) as [acts ret].
+    set (R1 := r_update k y (rec_stamp k (g_clock R)) R).
+    set (R2 := rset_log R1 (EvCall y (r_cb ry) (r_ud ry) (r_user ry) k (g_clock R1) ret :: g_log R1)).
+    assert (S1 : stable R R1) by (unfold R1, r_update; apply stable_rset). destruct S1 as (s1&s2&s3&s4).
+    assert (W2 : WF R2).
+    { apply wf_rset_log. apply wf_r_update; auto. intro. apply hid_rec_stamp. }
+    assert (G2 : g_next R2 = g_next R) by (unfold R2, R1, r_update; simpl; apply g_next_rset).
+    assert (F2 : forall r', find_rec x (rget k R2) = Some r' -> find_rec x (rget k R) = Some r').
+    { intros r' Hr'. replace (rget k R2) with (rget k R1) in Hr' by (destruct k; reflexivity).
+      unfold R1, r_update in Hr'. rewrite rget_rset_same in Hr'. rewrite find_map_other in Hr'; auto.
+      intro. apply hid_rec_stamp. }
+    pose proof (stable_actions acts R2) as (t1&t2&t3&t4).
+    set (R3 := r_actions acts R2) in *.
+    assert (W3 : WF R3) by (apply wf_actions; auto).
+    assert (G3 : (g_next R <= g_next R3)%nat) by (pose proof (g_next_actions acts R2); fold R3 in H; lia).
+    assert (Hxlt : (x < g_next R)%nat) by (apply B; right; auto).
+    set (R4 := if ret then R3 else r_remove k y R3).
+    assert (W4 : WF R4) by (unfold R4; destruct ret; auto; apply wf_r_remove; auto).
+    assert (G4 : (g_next R <= g_next R4)%nat).
+    { unfold R4. destruct ret; auto. unfold r_remove. rewrite g_next_rset. auto. }
+    assert (ST4 : g_neg R4 = g_neg R /\ g_clock R4 = g_clock R).
+    { unfold R4. destruct ret.
+      - rewrite t2, t3. unfold R2. simpl. auto.
+      - unfold r_remove.
+        destruct (g_fields_rset k (filter (fun r0 => negb (Nat.eqb (hid r0) y)) (rget k R3)) R3) as (_&b&c&_).
+        rewrite b, c, t2, t3. unfold R2. simpl. auto. }
+    destruct ST4 as [N4 C4].
+    assert (F4 : forall r', find_rec x (rget k R4) = Some r' -> find_rec x (rget k R) = Some r').
+    { intros r' Hr'. apply F2. apply (find_back_actions acts R2); auto; [lia|].
+      unfold R4 in Hr'. destruct ret; auto.
+      unfold r_remove in Hr'. rewrite rget_rset_same in Hr'.
+      apply find_rec_some_in in Hr'. destruct Hr' as [Hr' <-]. apply filter_In in Hr'. destruct Hr' as [Hr' _].
+      apply find_rec_unique; auto. apply (wf_nodup _ W3). }
+    fold R4.
+    destruct (present (rget k R4) x) eqn:P4.
+    + destruct (present_find _ _ P4) as [r4 F4'].
+      pose proof (F4 _ F4') as Fr. rewrite F in Fr. inversion Fr; subst r4.
+      rewrite <- C4.
+      apply IH; auto.
+      * intros h Hh. pose proof (B' h Hh). lia.
+      * rewrite (s_gate_neg k R R4 r N4). exact G.
+      * rewrite C4. exact M.
+    + right. apply absent_spec_loop; auto. lia.
+Qed.
+
+(* ================================================================== statements used by Properties_C11.v *)
+Lemma okres_Ok : forall A (r : res A) (P : A -> Prop) a, okres r P -> r = Ok a -> P a.
+Proof. intros A r P a [H|[b [H Hb]]] E; subst; [discriminate|]. inversion E; subst. auto. Qed.
+
+Lemma okres_safe : forall A (r : res A) (P : A -> Prop), okres r P -> r <> UAF /\ r <> DoubleFree.
+Proof. intros A r P [H|[b [H Hb]]]; subst; split; discriminate. Qed.
+
+Theorem fire_exact_lemma : forall sc fuel sz st st' R,
+  others_only sc -> Abs st R -> WF R -> fire_stanza sc fuel sz st = Ok st' ->
+  Abs st' (spec_fire_stanza sc sz R) /\ WF (spec_fire_stanza sc sz R) /\
+  log st' = g_log (spec_fire_stanza sc sz R).
+Proof.
+  intros sc fuel sz st st' R OO A W E.
+  pose proof (okres_Ok _ _ _ _ (fire_stanza_ok sc fuel sz st R OO A W) E) as A'. cbv beta in A'.
+  split; [exact A'|split].
+  - apply wf_spec_fire_stanza; auto.
+  - apply (env_eqs _ _ A').
+Qed.
+
+Theorem fire_timed_exact_lemma : forall sc fuel st st' R,
+  others_only sc -> Abs st R -> WF R -> fire_timed sc fuel st = Ok st' ->
+  Abs st' (spec_fire_timed sc R) /\ WF (spec_fire_timed sc R) /\ log st' = g_log (spec_fire_timed sc R).
+Proof.
+  intros sc fuel st st' R OO A W E.
+  pose proof (okres_Ok _ _ _ _ (fire_timed_ok sc fuel st R OO A W) E) as A'. cbv beta in A'.
+  split; [exact A'|split].
+  - apply wf_spec_fire_timed; auto.
+  - apply (env_eqs _ _ A').
+Qed.
+
+Theorem run_ops_exact_lemma : forall sc fuel ops st',
+  others_only sc -> Forall no_sysdel ops -> run_ops sc fuel ops init_state = Ok st' ->
+  Abs st' (spec_run sc ops init_reg) /\ WF (spec_run sc ops init_reg) /\ log st' = g_log (spec_run sc ops init_reg).
+Proof.
+  intros sc fuel ops st' OO NS E.
+  pose proof (okres_Ok _ _ _ _ (run_ops_ok sc fuel ops init_state init_reg OO NS abs_init wf_init) E) as [A' W'].
+  split; [exact A'|split; [exact W'|]]. apply (env_eqs _ _ A').
+Qed.
+
+Theorem no_uaf_lemma : forall sc fuel sz st R,
+  others_only sc -> Abs st R -> WF R ->
+  fire_stanza sc fuel sz st <> UAF /\ fire_stanza sc fuel sz st <> DoubleFree /\
+  fire_timed sc fuel st <> UAF /\ fire_timed sc fuel st <> DoubleFree.
+Proof.
+  intros sc fuel sz st R OO A W.
+  destruct (okres_safe _ _ _ (fire_stanza_ok sc fuel sz st R OO A W)).
+  destruct (okres_safe _ _ _ (fire_timed_ok sc fuel st R OO A W)). auto.
+Qed.
+
+Theorem run_ops_no_uaf_lemma : forall sc fuel ops,
+  others_only sc -> Forall no_sysdel ops ->
+  run_ops sc fuel ops init_state <> UAF /\ run_ops sc fuel ops init_state <> DoubleFree.
+Proof.
+  intros sc fuel ops OO NS.
+  apply (okres_safe _ _ _ (run_ops_ok sc fuel ops init_state init_reg OO NS abs_init wf_init)).
+Qed.
+
+(* --- order --- *)
+Lemma hids_r_enable : forall k k' R, hids (rget k' (r_enable k R)) = hids (rget k' R).
+Proof.
+  intros. destruct (kind_eq_dec k' k) as [->|N].
+  - rewrite rget_r_enable_same. apply hids_map_same. auto.
+  - rewrite rget_r_enable_other; auto.
+Qed.
+
+Lemma g_log_r_enable : forall k R, g_log (r_enable k R) = g_log R.
+Proof. intros. unfold r_enable. apply (g_fields_rset k _ R). Qed.
+
+Lemma g_clock_r_enable : forall k R, g_clock (r_enable k R) = g_clock R.
+Proof. intros. unfold r_enable. apply (g_fields_rset k _ R). Qed.
+
+Lemma g_neg_r_enable : forall k R, g_neg (r_enable k R) = g_neg R.
+Proof. intros. unfold r_enable. apply (g_fields_rset k _ R). Qed.
+
+Definition id_snapshot (sz : stanza) (R : reg) : list nat :=
+  match st_id sz with Some id => hids (rget (KId id) R) | None => [] end.
+
+Theorem fire_order_lemma : forall sc sz R, WF R ->
+  exists evs_id evs_st,
+    g_log (spec_fire_stanza sc sz R) = evs_st ++ evs_id ++ g_log R /\
+    subseq (calls_of (rev evs_id)) (id_snapshot sz R) /\
+    subseq (calls_of (rev evs_st)) (hids (rget KStanza R)) /\
+    NoDup (calls_of (rev evs_id)) /\ NoDup (calls_of (rev evs_st)) /\
+    (forall e, In e (evs_st ++ evs_id) -> exists x cb ud u k ret, e = EvCall x cb ud u k (g_clock R) ret).
+Proof.
+  intros sc sz R W. unfold spec_fire_stanza, id_snapshot.
+  set (R1 := r_enable KStanza R).
+  assert (HS : hids (rget KStanza R1) = hids (rget KStanza R)) by apply hids_r_enable.
+  rewrite HS.
+  destruct (st_id sz) as [id|].
+  - set (R1' := r_enable (KId id) R1).
+    assert (HI : hids (rget (KId id) R1') = hids (rget (KId id) R)).
+    { unfold R1', R1. rewrite !hids_r_enable. reflexivity. }
+    rewrite HI.
+    destruct (spec_loop_trace sc (KId id) sz (hids (rget (KId id) R)) R1') as [e1 [L1 [S1 F1]]].
+    set (R2 := spec_loop sc (KId id) sz (hids (rget (KId id) R)) R1') in *.
+    destruct (spec_loop_trace sc KStanza sz (hids (rget KStanza R)) R2) as [e2 [L2 [S2 F2]]].
+    exists e1, e2.
+    assert (C2 : g_clock R2 = g_clock R).
+    { unfold R2. destruct (stable_spec_loop sc (KId id) sz (hids (rget (KId id) R)) R1') as (_&c&_).
+      rewrite c. unfold R1', R1. rewrite !g_clock_r_enable. reflexivity. }
+    assert (C1 : g_clock R1' = g_clock R) by (unfold R1', R1; rewrite !g_clock_r_enable; reflexivity).
+    repeat split; auto.
+    + rewrite L2, L1. unfold R1', R1. rewrite !g_log_r_enable. reflexivity.
+    + eapply subseq_nodup; eauto. apply (wf_nodup _ W).
+    + eapply subseq_nodup; eauto. apply (wf_nodup _ W).
+    + intros e He. apply in_app_or in He. destruct He as [He|He].
+      * rewrite Forall_forall in F2. destruct (F2 e He) as (x&cb&ud&u&ret&->). rewrite C2. eauto 10.
+      * rewrite Forall_forall in F1. destruct (F1 e He) as (x&cb&ud&u&ret&->). rewrite C1. eauto 10.
+  - destruct (spec_loop_trace sc KStanza sz (hids (rget KStanza R)) R1) as [e2 [L2 [S2 F2]]].
+    exists [], e2. cbn [app rev calls_of flat_map]. repeat split; auto.
+    + rewrite L2. unfold R1. rewrite g_log_r_enable. reflexivity.
+    + constructor.
+    + constructor.
+    + eapply subseq_nodup; eauto. apply (wf_nodup _ W).
+    + intros e He. rewrite app_nil_r in He. rewrite Forall_forall in F2.
+      destruct (F2 e He) as (x&cb&ud&u&ret&->). unfold R1. rewrite g_clock_r_enable. eauto 10.
+Qed.
